@@ -891,8 +891,85 @@ def run_string_literals(w) -> None:
             loaded.unload()
 
 
+CORNER_SOURCE = '''
+import icontract
+
+OUT = {}
+
+
+def attempt(tag, thunk):
+    try:
+        thunk()
+        OUT[tag] = ("returned", None)
+    except BaseException as err:
+        OUT[tag] = ("raised", err)
+
+
+def make_with_unbound_closure_variable():
+    """The condition names a variable of the enclosing function which is not bound yet; Python never reads it for this call."""
+
+    @icontract.require(lambda x: x > 0 and helper(x))
+    def f(x):
+        return x
+
+    attempt("unbound-closure-variable-not-evaluated", lambda: f(-1))
+    helper = bool
+    attempt("closure-variable-bound-later", lambda: f(-2))
+    return helper
+
+
+class Agreeable:
+    """A callable which compares equal to everything (mock objects and symbolic expressions do)."""
+
+    def __eq__(self, other):
+        return True
+
+    def __hash__(self):
+        return 1
+
+    def __call__(self, items):
+        return len(list(items)) > 3
+
+
+agreeable = Agreeable()
+
+
+@icontract.require(lambda xs: agreeable(x > 0 for x in xs))
+def g(xs):
+    return xs
+
+
+make_with_unbound_closure_variable()
+attempt("callee-equal-to-everything-over-a-generator", lambda: g([1, 2]))
+'''
+
+CORNER_TEXTS = {"unbound-closure-variable-not-evaluated": "x > 0 and helper(x)", "closure-variable-bound-later": "x > 0 and helper(x)",
+                "callee-equal-to-everything-over-a-generator": "agreeable(x > 0 for x in xs)"}
+
+
+def run_corner_conditions(w) -> None:
+    """Falsy conditions which Python evaluates without any trouble: the caller gets the ViolationError with the condition text, also
+    when the enclosing scope has a variable that is not bound yet, or when the callee compares equal to the builtin all."""
+    import icontract  # pylint: disable=import-outside-toplevel
+
+    loaded = prog.load_source(CORNER_SOURCE, w.scratch())
+    try:
+        for tag, (outcome, err) in sorted(loaded.module.OUT.items()):
+            w.count("violating_calls")
+            w.count("corner_conditions")
+            w.case(("corner-condition", tag))
+            text = CORNER_TEXTS[tag]
+            if outcome != "raised" or not isinstance(err, icontract.ViolationError) or text not in str(err):
+                w.violation("C07/violation-not-surfaced/" + tag, "the falsy condition `{}` gave {} {}: {!r}".format(
+                    text, outcome, type(err).__name__, str(err)[:300]), {"corner_condition": tag})
+    finally:
+        loaded.unload()
+
+
 def run(w) -> None:
     install_hook()
+    if w.shard == 3 % w.nshards:
+        run_corner_conditions(w)
     all_layouts = layouts()
     n_batches = 3000 if w.tier == "thorough" else 160
     for b in range(n_batches):
@@ -913,6 +990,9 @@ def replay(case, w) -> None:
     install_hook()
     if "private_name" in case:
         run_private_names(w)
+        return
+    if "corner_condition" in case:
+        run_corner_conditions(w)
         return
     if "string_literal" in case:
         run_string_literals(w)
